@@ -113,6 +113,19 @@ Print Assumptions C13_multi_correct_laws.
 Theorem C13_multi_correct_fix : forall v cs, has_children v = true -> Forall2 (fun sv c => in_domb sv c = true) (children v) cs -> correct_var v cs = Some cs.
 Proof. exact multi_correct_fix. Qed.
 Print Assumptions C13_multi_correct_fix.
+(* random sampling, REGENERATED: under numpy's documented ranges (premises) a scalar sample is a member of the domain, and a multi-variable draws once per child *)
+Theorem C13_randomize_regenerated : forall du dc dp,
+  (forall lo hi, is_fin lo = true -> is_fin hi = true -> xltb lo hi = true -> is_fin (du lo hi) = true /\ xleb lo (du lo hi) = true /\ xleb (du lo hi) hi = true) ->
+  (forall n, 1 <= n -> dc n < n) -> (forall n, is_permb n (dp n) = true) ->
+  (forall sv, valid_svar sv -> in_domb sv (child_randomize du dc dp sv) = true) /\
+  (forall v, Forall valid_svar (children v) ->
+     let s := gen_cmv_randomize (child_randomize du dc dp) (children v) in
+     length s = length (children v) /\ Forall2 (fun sv c => in_domb sv c = true) (children v) s) /\
+  (forall r ch, gen_mov_randomize r ch = gen_cmv_randomize r ch /\ gen_dmv_randomize r ch = gen_cmv_randomize r ch /\ gen_bin_randomize r ch = gen_cmv_randomize r ch).
+Proof.
+  intros du dc dp H1 H2 H3. split; [exact (child_randomize_in_dom du dc dp H1 H2 H3)|]. split; [exact (multi_randomize_in_dom du dc dp H1 H2 H3)|exact multi_randomize_same].
+Qed.
+Print Assumptions C13_randomize_regenerated.
 Import ListNotations.
 Example C13_multi_nonvacuous :
   let v := VContMulti [xint 0; xint (-1)] [xint 1; xint 1] in
